@@ -27,8 +27,8 @@ def run(ctx):
     jobs.append(Job("c16.py", "h_newlines", {}, T, 30, tag="newline offsets / location_to_index, |code|<=4"))
     for K in (1, 2):
         jobs.append(Job("c16.py", "h_lex", {"K": K, "fixed_kind": True}, T, 30, tag=f"token positions K={K}", meta={"sigtag": "lex"}))
-    # quick: one language per block style / header style (C, C++ and C# share all pairing code; TypeScript shares JavaScript's arrow pattern); thorough: all seven, N=3
-    plan = {l: 2 for l in ("Python", "JavaScript")} if ctx.quick() else {l: 3 for l in ("Python", "C", "JavaScript", "Java", "TypeScript", "Cpp", "CSharp")}
+    # quick: Python only (indentation blocks are the delicate case; brace languages are covered by the mutants and by thorough) (C, C++ and C# share all pairing code; TypeScript shares JavaScript's arrow pattern); thorough: all seven, N=3
+    plan = {l: 2 for l in ("Python",)} if ctx.quick() else {l: 3 for l in ("Python", "C", "JavaScript", "Java", "TypeScript", "Cpp", "CSharp")}
     jobs += soup_common.soup_jobs(ctx, "wellformed", plan, framed=True, tolerate=AMBIG)
     jobs += soup_common.mutation_jobs(ctx, ["two", "stmt-mix", "nested-middle", "class-methods"] if ctx.quick() else None, tolerate=AMBIG)
     ctx.run_xh(jobs)
